@@ -6,6 +6,8 @@ package grpc
 // violation (C13); flags and codes are compared with the kernel outcome (C15).
 
 import (
+	"github.com/resonatehq/resonate/pkg/promise"
+	"github.com/resonatehq/resonate/pkg/idempotency"
 	"context"
 
 	i_api "github.com/resonatehq/resonate/internal/api"
@@ -123,6 +125,25 @@ func VH_G_ReadPromise() {
 	}
 }
 
+// vhKeyIs: an empty protobuf key means "no key"; otherwise the kernel gets exactly that key
+func vhKeyIs(k *idempotency.Key, sent string) bool {
+	if k == nil {
+		return sent == ""
+	}
+	return vx.And(sent != "", string(*k) == sent)
+}
+
+func vhValueIs(v promise.Value, sent *pb.Value) bool {
+	if sent == nil {
+		return vx.And(vx.BytesEq(v.Data, nil), vx.MapEq(v.Headers, nil))
+	}
+	return vx.And(vx.BytesEq(v.Data, sent.Data), vx.MapEq(v.Headers, sent.Headers))
+}
+
+func vhCompleteCopied(q *t_api.CompletePromiseRequest, id, ikey string, strict bool, val *pb.Value) bool {
+	return vx.And(q.Id == id, q.Strict == strict, vhKeyIs(q.IdempotencyKey, ikey), vhValueIs(q.Value, val))
+}
+
 func vhCreatePromiseReq() *pb.CreatePromiseRequest {
 	return &pb.CreatePromiseRequest{Id: vx.String("id"), IdempotencyKey: vx.String("ikey"), Strict: vx.Bool("strict"), Param: vhValue("param"),
 		Timeout: vx.Int64("timeout"), Tags: vx.Tags("tags", 1), RequestId: vx.String("requestId")}
@@ -134,7 +155,7 @@ func VH_G_CreatePromise() {
 	out, err := s.CreatePromise(vhCtx, r)
 	if k.calls == 1 {
 		q := k.req.CreatePromise
-		vx.Assert(q.Id == r.Id && q.Timeout == r.Timeout && q.Strict == r.Strict && vx.MapEq(q.Tags, r.Tags) && (q.IdempotencyKey == nil) == (r.IdempotencyKey == ""), "C20:request-fields-copied")
+		vx.Assert(vx.And(q.Id == r.Id, q.Timeout == r.Timeout, q.Strict == r.Strict, vx.MapEq(q.Tags, r.Tags), vhKeyIs(q.IdempotencyKey, r.IdempotencyKey), vhValueIs(q.Param, r.Param)), "C20:request-fields-copied")
 	}
 	if vhReply(k, out != nil, err) {
 		vx.Assert(out.Noop == (k.res.CreatePromise.Status == t_api.StatusOK), "C15:noop-flag")
@@ -151,6 +172,12 @@ func VH_G_CreatePromiseAndTask() {
 		r.Task = &pb.CreatePromiseTaskRequest{ProcessId: vx.String("processId"), Ttl: vx.Int32("ttl")}
 	}
 	out, err := s.CreatePromiseAndTask(vhCtx, r)
+	if k.calls == 1 && r.Promise != nil && r.Task != nil {
+		q := k.req.CreatePromiseAndTask
+		p := r.Promise
+		vx.Assert(vx.And(q.Promise.Id == p.Id, q.Promise.Timeout == p.Timeout, q.Promise.Strict == p.Strict, vx.MapEq(q.Promise.Tags, p.Tags), vhKeyIs(q.Promise.IdempotencyKey, p.IdempotencyKey), vhValueIs(q.Promise.Param, p.Param)), "C20:request-fields-copied")
+		vx.Assert(vx.And(q.Task.PromiseId == p.Id, q.Task.ProcessId == r.Task.ProcessId, int64(q.Task.Ttl) == int64(r.Task.Ttl), q.Task.Timeout == p.Timeout), "C20:task-fields-copied")
+	}
 	if vhReply(k, out != nil, err) {
 		vx.Assert(out.Noop == (k.res.CreatePromiseAndTask.Status == t_api.StatusOK), "C15:noop-flag")
 	}
@@ -158,8 +185,10 @@ func VH_G_CreatePromiseAndTask() {
 
 func VH_G_ResolvePromise() {
 	s, k := vhServer()
-	out, err := s.ResolvePromise(vhCtx, &pb.ResolvePromiseRequest{Id: vx.String("id"), IdempotencyKey: vx.String("ikey"), Strict: vx.Bool("strict"), Value: vhValue("value"), RequestId: vx.String("requestId")})
+	r := &pb.ResolvePromiseRequest{Id: vx.String("id"), IdempotencyKey: vx.String("ikey"), Strict: vx.Bool("strict"), Value: vhValue("value"), RequestId: vx.String("requestId")}
+	out, err := s.ResolvePromise(vhCtx, r)
 	if k.calls == 1 {
+		vx.Assert(vhCompleteCopied(k.req.CompletePromise, r.Id, r.IdempotencyKey, r.Strict, r.Value), "C20:request-fields-copied")
 		vx.Assert(int64(k.req.CompletePromise.State) == 2, "C15:resolve-requests-resolved")
 	}
 	if vhReply(k, out != nil, err) {
@@ -169,8 +198,10 @@ func VH_G_ResolvePromise() {
 
 func VH_G_RejectPromise() {
 	s, k := vhServer()
-	out, err := s.RejectPromise(vhCtx, &pb.RejectPromiseRequest{Id: vx.String("id"), IdempotencyKey: vx.String("ikey"), Strict: vx.Bool("strict"), Value: vhValue("value"), RequestId: vx.String("requestId")})
+	r := &pb.RejectPromiseRequest{Id: vx.String("id"), IdempotencyKey: vx.String("ikey"), Strict: vx.Bool("strict"), Value: vhValue("value"), RequestId: vx.String("requestId")}
+	out, err := s.RejectPromise(vhCtx, r)
 	if k.calls == 1 {
+		vx.Assert(vhCompleteCopied(k.req.CompletePromise, r.Id, r.IdempotencyKey, r.Strict, r.Value), "C20:request-fields-copied")
 		vx.Assert(int64(k.req.CompletePromise.State) == 4, "C15:reject-requests-rejected")
 	}
 	if vhReply(k, out != nil, err) {
@@ -180,8 +211,10 @@ func VH_G_RejectPromise() {
 
 func VH_G_CancelPromise() {
 	s, k := vhServer()
-	out, err := s.CancelPromise(vhCtx, &pb.CancelPromiseRequest{Id: vx.String("id"), IdempotencyKey: vx.String("ikey"), Strict: vx.Bool("strict"), Value: vhValue("value"), RequestId: vx.String("requestId")})
+	r := &pb.CancelPromiseRequest{Id: vx.String("id"), IdempotencyKey: vx.String("ikey"), Strict: vx.Bool("strict"), Value: vhValue("value"), RequestId: vx.String("requestId")}
+	out, err := s.CancelPromise(vhCtx, r)
 	if k.calls == 1 {
+		vx.Assert(vhCompleteCopied(k.req.CompletePromise, r.Id, r.IdempotencyKey, r.Strict, r.Value), "C20:request-fields-copied")
 		vx.Assert(int64(k.req.CompletePromise.State) == 8, "C15:cancel-requests-canceled")
 	}
 	if vhReply(k, out != nil, err) {
@@ -200,8 +233,13 @@ func VH_G_SearchPromises() {
 
 func VH_G_CreateCallback() {
 	s, k := vhServer()
-	out, err := s.CreateCallback(vhCtx, &pb.CreateCallbackRequest{Id: vx.String("id"), PromiseId: vx.String("promiseId"), RootPromiseId: vx.String("rootPromiseId"),
-		Timeout: vx.Int64("timeout"), Recv: vhRecv(), RequestId: vx.String("requestId")})
+	r := &pb.CreateCallbackRequest{Id: vx.String("id"), PromiseId: vx.String("promiseId"), RootPromiseId: vx.String("rootPromiseId"),
+		Timeout: vx.Int64("timeout"), Recv: vhRecv(), RequestId: vx.String("requestId")}
+	out, err := s.CreateCallback(vhCtx, r)
+	if k.calls == 1 {
+		q := k.req.CreateCallback
+		vx.Assert(vx.And(q.PromiseId == r.PromiseId, q.RootPromiseId == r.RootPromiseId, q.Timeout == r.Timeout), "C20:request-fields-copied")
+	}
 	if vhReply(k, out != nil, err) {
 		vx.Assert(out.Noop == (k.res.CreateCallback.Status == t_api.StatusOK), "C15:noop-flag")
 	}
@@ -209,8 +247,13 @@ func VH_G_CreateCallback() {
 
 func VH_G_CreateSubscription() {
 	s, k := vhServer()
-	out, err := s.CreateSubscription(vhCtx, &pb.CreateSubscriptionRequest{Id: vx.String("id"), PromiseId: vx.String("promiseId"),
-		Timeout: vx.Int64("timeout"), Recv: vhRecv(), RequestId: vx.String("requestId")})
+	r := &pb.CreateSubscriptionRequest{Id: vx.String("id"), PromiseId: vx.String("promiseId"),
+		Timeout: vx.Int64("timeout"), Recv: vhRecv(), RequestId: vx.String("requestId")}
+	out, err := s.CreateSubscription(vhCtx, r)
+	if k.calls == 1 {
+		q := k.req.CreateSubscription
+		vx.Assert(vx.And(q.Id == r.Id, q.PromiseId == r.PromiseId, q.Timeout == r.Timeout), "C20:request-fields-copied")
+	}
 	if vhReply(k, out != nil, err) {
 		vx.Assert(out.Noop == (k.res.CreateSubscription.Status == t_api.StatusOK), "C15:noop-flag")
 	}
@@ -220,7 +263,12 @@ func VH_G_CreateSubscription() {
 
 func VH_G_ClaimTask() {
 	s, k := vhServer()
-	out, err := s.ClaimTask(vhCtx, &pb.ClaimTaskRequest{Id: vx.String("id"), Counter: vx.Int32("counter"), ProcessId: vx.String("processId"), Ttl: vx.Int32("ttl"), RequestId: vx.String("requestId")})
+	r := &pb.ClaimTaskRequest{Id: vx.String("id"), Counter: vx.Int32("counter"), ProcessId: vx.String("processId"), Ttl: vx.Int32("ttl"), RequestId: vx.String("requestId")}
+	out, err := s.ClaimTask(vhCtx, r)
+	if k.calls == 1 {
+		q := k.req.ClaimTask
+		vx.Assert(vx.And(q.Id == r.Id, int64(q.Counter) == int64(r.Counter), q.ProcessId == r.ProcessId, int64(q.Ttl) == int64(r.Ttl)), "C20:request-fields-copied")
+	}
 	if vhReply(k, out != nil, err) {
 		vx.Assert(out.Claimed == (k.res.ClaimTask.Status == t_api.StatusCreated), "C15:claimed-flag")
 	}
@@ -228,7 +276,11 @@ func VH_G_ClaimTask() {
 
 func VH_G_CompleteTask() {
 	s, k := vhServer()
-	out, err := s.CompleteTask(vhCtx, &pb.CompleteTaskRequest{Id: vx.String("id"), Counter: vx.Int32("counter"), RequestId: vx.String("requestId")})
+	r := &pb.CompleteTaskRequest{Id: vx.String("id"), Counter: vx.Int32("counter"), RequestId: vx.String("requestId")}
+	out, err := s.CompleteTask(vhCtx, r)
+	if k.calls == 1 {
+		vx.Assert(vx.And(k.req.CompleteTask.Id == r.Id, int64(k.req.CompleteTask.Counter) == int64(r.Counter)), "C20:request-fields-copied")
+	}
 	if vhReply(k, out != nil, err) {
 		vx.Assert(out.Completed == (k.res.CompleteTask.Status == t_api.StatusCreated), "C15:completed-flag")
 	}
@@ -236,7 +288,11 @@ func VH_G_CompleteTask() {
 
 func VH_G_HeartbeatTasks() {
 	s, k := vhServer()
-	out, err := s.HeartbeatTasks(vhCtx, &pb.HeartbeatTasksRequest{ProcessId: vx.String("processId"), RequestId: vx.String("requestId")})
+	r := &pb.HeartbeatTasksRequest{ProcessId: vx.String("processId"), RequestId: vx.String("requestId")}
+	out, err := s.HeartbeatTasks(vhCtx, r)
+	if k.calls == 1 {
+		vx.Assert(k.req.HeartbeatTasks.ProcessId == r.ProcessId, "C20:request-fields-copied")
+	}
 	if vhReply(k, out != nil, err) {
 		vx.Assert(out.TasksAffected == k.res.HeartbeatTasks.TasksAffected, "C15:count-copied")
 	}
@@ -246,8 +302,13 @@ func VH_G_HeartbeatTasks() {
 
 func VH_G_AcquireLock() {
 	s, k := vhServer()
-	out, err := s.AcquireLock(vhCtx, &pb.AcquireLockRequest{ResourceId: vx.String("resourceId"), ExecutionId: vx.String("executionId"), ProcessId: vx.String("processId"),
-		Ttl: vx.Int64("ttl"), RequestId: vx.String("requestId")})
+	r := &pb.AcquireLockRequest{ResourceId: vx.String("resourceId"), ExecutionId: vx.String("executionId"), ProcessId: vx.String("processId"),
+		Ttl: vx.Int64("ttl"), RequestId: vx.String("requestId")}
+	out, err := s.AcquireLock(vhCtx, r)
+	if k.calls == 1 {
+		q := k.req.AcquireLock
+		vx.Assert(vx.And(q.ResourceId == r.ResourceId, q.ExecutionId == r.ExecutionId, q.ProcessId == r.ProcessId, q.Ttl == r.Ttl), "C20:request-fields-copied")
+	}
 	if vhReply(k, out != nil, err) {
 		vx.Assert(out.Acquired == (k.res.AcquireLock.Status == t_api.StatusCreated), "C15:acquired-flag")
 	}
@@ -255,7 +316,11 @@ func VH_G_AcquireLock() {
 
 func VH_G_ReleaseLock() {
 	s, k := vhServer()
-	out, err := s.ReleaseLock(vhCtx, &pb.ReleaseLockRequest{ResourceId: vx.String("resourceId"), ExecutionId: vx.String("executionId"), RequestId: vx.String("requestId")})
+	r := &pb.ReleaseLockRequest{ResourceId: vx.String("resourceId"), ExecutionId: vx.String("executionId"), RequestId: vx.String("requestId")}
+	out, err := s.ReleaseLock(vhCtx, r)
+	if k.calls == 1 {
+		vx.Assert(vx.And(k.req.ReleaseLock.ResourceId == r.ResourceId, k.req.ReleaseLock.ExecutionId == r.ExecutionId), "C20:request-fields-copied")
+	}
 	if vhReply(k, out != nil, err) {
 		vx.Assert(out.Released == (k.res.ReleaseLock.Status == t_api.StatusNoContent), "C15:released-flag")
 	}
@@ -263,7 +328,11 @@ func VH_G_ReleaseLock() {
 
 func VH_G_HeartbeatLocks() {
 	s, k := vhServer()
-	out, err := s.HeartbeatLocks(vhCtx, &pb.HeartbeatLocksRequest{ProcessId: vx.String("processId"), RequestId: vx.String("requestId")})
+	r := &pb.HeartbeatLocksRequest{ProcessId: vx.String("processId"), RequestId: vx.String("requestId")}
+	out, err := s.HeartbeatLocks(vhCtx, r)
+	if k.calls == 1 {
+		vx.Assert(k.req.HeartbeatLocks.ProcessId == r.ProcessId, "C20:request-fields-copied")
+	}
 	if vhReply(k, out != nil, err) {
 		vx.Assert(int64(out.LocksAffected) == k.res.HeartbeatLocks.LocksAffected, "C15:count-copied")
 	}
@@ -273,7 +342,11 @@ func VH_G_HeartbeatLocks() {
 
 func VH_G_ReadSchedule() {
 	s, k := vhServer()
-	out, err := s.ReadSchedule(vhCtx, &pb.ReadScheduleRequest{Id: vx.String("id"), RequestId: vx.String("requestId")})
+	r := &pb.ReadScheduleRequest{Id: vx.String("id"), RequestId: vx.String("requestId")}
+	out, err := s.ReadSchedule(vhCtx, r)
+	if k.calls == 1 {
+		vx.Assert(k.req.ReadSchedule.Id == r.Id, "C20:request-fields-copied")
+	}
 	vhReply(k, out != nil, err)
 }
 
@@ -291,6 +364,7 @@ func VH_G_CreateSchedule() {
 	if k.calls == 1 {
 		q := k.req.CreateSchedule
 		vx.Assert(q.Id == r.Id && q.Cron == r.Cron && q.PromiseId == r.PromiseId && q.PromiseTimeout == r.PromiseTimeout && vx.MapEq(q.Tags, r.Tags) && vx.MapEq(q.PromiseTags, r.PromiseTags) && q.Description == r.Description, "C15:request-fields-copied")
+		vx.Assert(vx.And(vhKeyIs(q.IdempotencyKey, r.IdempotencyKey), vhValueIs(q.PromiseParam, r.PromiseParam)), "C20:request-fields-copied")
 	}
 	vhReply(k, out != nil, err)
 }
